@@ -183,11 +183,20 @@ def render(model, opt):
             exp["notes"].append(dict(id=n["id"], kind="note", onset=onset, dur=dur, step=n["step"], alter=n["alter"] or 0, octave=n["octave"],
                                      voice=voice, staff=xs if xs is not None else staff))
         else:
-            inner = "".join(note_xml(n, e["sym"], e["dur"], True) for n in e["notes"])
-            out.append("<chord%s>%s</chord>" % (dur_attrs(e["sym"], e["dur"], "c-" + e["id"]), inner))
+            # single notes of a chord may carry a staff of their own (cross-staff chords); it holds for that note only
+            xss = []
             for n in e["notes"]:
+                xs = None
+                if nparts >= 2:
+                    counters["xstaff"] += 1
+                    if opt["xstaff"][counters["xstaff"] % len(opt["xstaff"])]:
+                        xs = staff % nparts + 1
+                xss.append(xs)
+            inner = "".join(note_xml(n, e["sym"], e["dur"], True, cross_staff=xs) for n, xs in zip(e["notes"], xss))
+            out.append("<chord%s>%s</chord>" % (dur_attrs(e["sym"], e["dur"], "c-" + e["id"]), inner))
+            for n, xs in zip(e["notes"], xss):
                 exp["notes"].append(dict(id=n["id"], kind="note", onset=onset, dur=dur, step=n["step"], alter=n["alter"] or 0, octave=n["octave"],
-                                         voice=voice, staff=staff))
+                                         voice=voice, staff=xs if xs is not None else staff))
         return "".join(out)
 
     def beamable(e):
